@@ -142,6 +142,18 @@ def grid_lookup(ctx):
         ok = ok and abs(c[0] - spec.pmin[k]) <= tol[k] and abs(c[-1] - spec.pmax[k]) <= tol[k]
     ctx.check("C16.grid.coordinates", ok, dimensions=grid.dimensions,
               x=np.asarray(grid.x), note="grid coordinates must be the mesh vertices", **what)
+    # ---- the outermost vertices are the region's corners, to the last bit, also on long axes
+    for _ in range(6):
+        tm = _thin_mesh(rng)
+        tg = pv().wrap(df.Field(tm, nvdim=1, value=1.0).to_vtk())
+        ctx.event("grid.thin_mesh")
+        ctx.check("C16.grid.coordinates",
+                  tuple(tg.dimensions) == tuple(int(k) + 1 for k in tm.n)
+                  and all(c[0] == tm.region.pmin[k] and c[-1] == tm.region.pmax[k]
+                          for k, c in enumerate((tg.x, tg.y, tg.z))),
+                  note="first and last grid coordinate must be the region's corners exactly",
+                  n=tm.n, pmin=tm.region.pmin, pmax=tm.region.pmax,
+                  got=[[c[0], c[-1]] for c in (tg.x, tg.y, tg.z)])
     names = set(grid.cell_data.keys())
     want = {"field", "norm", "valid"} | (set(exp_labels) if nvdim > 1 else set())
     ctx.check("C16.grid.arrays_present", want <= names and grid.n_cells == int(np.prod(n)),
@@ -288,6 +300,36 @@ def roundtrip(ctx, tmp, representable):
         ctx.check("C16.roundtrip.subregions", oks, got=ig.subs_describe(subs),
                   expected=ig.subs_describe(sub_before), **what)
         _cleanup(fn)
+    # ---- "exactly for binary and XML" on a long axis at non-representable coordinates
+    for rep in ("bin", "xml"):
+        tm = _thin_mesh(rng)
+        fn = os.path.join(tmp, f"thin_{rep}.vtk")
+        try:
+            df.Field(tm, nvdim=1, value=1.0).to_file(fn, representation=rep)
+            r = df.Field.from_file(fn)
+        except Exception as e:  # noqa: BLE001
+            ctx.check("C16.roundtrip.loads", False, exc=e, representation=rep, n=tm.n)
+            _cleanup(fn)
+            continue
+        ctx.event(f"roundtrip.{rep}.thin_mesh")
+        ctx.check("C16.roundtrip.region",
+                  np.array_equal(r.mesh.region.pmin, tm.region.pmin)
+                  and np.array_equal(r.mesh.region.pmax, tm.region.pmax)
+                  and tuple(int(k) for k in r.mesh.n) == tuple(int(k) for k in tm.n),
+                  got=[r.mesh.region.pmin, r.mesh.region.pmax],
+                  expected=[tm.region.pmin, tm.region.pmax], n=tm.n, representation=rep)
+        _cleanup(fn)
+
+
+def _thin_mesh(rng):
+    """A mesh with one axis of 5..40 cells at non-representable coordinates (round 6,
+    C16-11: `pmin + k * cell` and the mesh's own vertices part by an ulp on such axes)."""
+    nn = [int(rng.integers(1, 3)) for _ in range(3)]
+    nn[int(rng.integers(0, 3))] = int(rng.integers(5, 41))
+    s = 10.0 ** rng.uniform(-9, 3)
+    lo = rng.uniform(-1, 1, 3) * s * float(gen.pick(rng, [0, 1, 1, 100]))
+    hi = lo + rng.uniform(0.1, 1, 3) * s
+    return df.Mesh(p1=tuple(lo.tolist()), p2=tuple(hi.tolist()), n=tuple(nn))
 
 
 def _cleanup(fn):
